@@ -122,7 +122,7 @@ pub fn c03_l3_gen_keypair_toy() {
     let bytes: [u8; RNG_CAP] = kani::any();
     let mut rng = ScriptRng::new(bytes);
     let (sk, pk) = ToyKemLin::gen_keypair(&mut rng);
-    assert!(rng.pos == 2 && rng.fill_calls == 1 && rng.other_calls == 0);
+    assert!(rng.pos == 2 && !rng.overflow, "exactly Nsk bytes must be drawn from the caller's RNG");
     let mut want = [0u8; 2];
     rfc::derive_sk_simple::<LinHash>(KEM_ID, &bytes[..2], &mut want);
     assert!(eq_bytes(&sk.to_bytes(), &want));
@@ -141,7 +141,7 @@ pub fn c03_l3_encap_rng_toy() {
     let sks = XorPrivateKey(sk_s);
     let pks = ToyKemLin::sk_to_pk(&sks);
     let res = ToyKemLin::encap(&XorPublicKey(pk_r), Some((&sks, &pks)), &mut rng);
-    assert!(rng.pos == 2 && rng.fill_calls == 1 && rng.other_calls == 0);
+    assert!(rng.pos == 2 && !rng.overflow, "exactly Nsk bytes must be drawn from the caller's RNG");
     let mut e = [0u8; 2];
     rfc::derive_sk_simple::<LinHash>(KEM_ID, &bytes[..2], &mut e);
     let sk_e = u16::from_be_bytes(e);
